@@ -295,11 +295,55 @@ func (u *Unit) tableObligations(fre, kre *regexp.Regexp) ([]*Obligation, []FuncO
 			mk("api.table$Recovery", "Logger[calls-next-once]", nextCalls == 1, "the handler returned by Logger calls next(ctx) exactly once")
 			mk("api.table$Recovery", "Logger[no-response-writes]", writes == 0, "Logger does not set status, headers or body itself")
 		}
+		// Chain: each middleware wraps what the previous ones built (the handler is accumulated, not restarted from
+		// the innermost one), and the accumulated handler is what is returned
+		if ch, _ := p.Members["Chain"].(*ssa.Function); ch != nil && len(ch.AnonFuncs) > 0 {
+			C := ch.AnonFuncs[0]
+			accumulates := false
+			var acc *ssa.Phi
+			for _, b := range C.Blocks {
+				for _, in := range b.Instrs {
+					c, ok := in.(*ssa.Call)
+					if !ok || c.Call.StaticCallee() != nil || len(c.Call.Args) != 1 || !blockInLoop(b) {
+						continue
+					}
+					if _, isB := c.Call.Value.(*ssa.Builtin); isB {
+						continue
+					}
+					if phi, ok := c.Call.Args[0].(*ssa.Phi); ok && len(C.Params) == 1 {
+						fromParam, fromCall := false, false
+						for _, e := range phi.Edges {
+							if e == ssa.Value(C.Params[0]) {
+								fromParam = true
+							}
+							if e == ssa.Value(c) {
+								fromCall = true
+							}
+						}
+						if fromParam && fromCall {
+							accumulates, acc = true, phi
+						}
+					}
+				}
+			}
+			returnsAcc := acc != nil
+			for _, b := range C.Blocks {
+				for _, in := range b.Instrs {
+					if r, ok := in.(*ssa.Return); ok {
+						if len(r.Results) != 1 || r.Results[0] != ssa.Value(acc) {
+							returnsAcc = false
+						}
+					}
+				}
+			}
+			mk("api.table$Recovery", "Chain[accumulates]", accumulates, "in Chain's loop each middleware is applied to the handler built so far (seeded with final)")
+			mk("api.table$Recovery", "Chain[returns-accumulated]", returnsAcc, "Chain returns the accumulated handler")
+		}
 		mk("api.table$Recovery", "Recovery[defer-before-next]", deferFirst, "the handler returned by Recovery defers its recovery function first and then calls next(ctx), once")
 		mk("api.table$Recovery", "Recovery[recover-direct]", recoverDirect, "the deferred function itself calls recover() (a recover() inside a helper it calls would not stop the panic)")
 		mk("api.table$Recovery", "Recovery[calls-next-once]", callsNext == 1, "next is called exactly once")
 		mk("api.table$Recovery", "Recovery[wired]", wired, "NewServer builds its handler from routers wrapped in Recovery")
-		fo = append(fo, FuncOut{Name: "api.table$Recovery", Unit: u.Name, HasContract: true, Obligations: 6})
+		fo = append(fo, FuncOut{Name: "api.table$Recovery", Unit: u.Name, HasContract: true, Obligations: 8})
 	}
 	// algoStrMap
 	if g := u.globalByName("algoStrMap"); g != nil && u.internalPkg(g.Pkg) {
